@@ -518,6 +518,11 @@ pub fn c20_families(tier: &str) -> Vec<Family> {
         }
         v.push(fam(k, 3, "u", &ORD_ONE));
     }
+    // negative weights are representable; Dijkstra must answer ContradictoryPaths or a value, and
+    // whatever a failed call leaves behind must not hurt the next call on the same thread
+    v.push(fam(DS, 3, "wneg", &ORD_ONE));
+    v.push(fam(US, 3, "wneg", &ORD_ONE));
+    v.push(fam(DS, 2, "wneg", &ORD_ONE));
     if tier != "quick" {
         v.push(fam(US, 3, "w12", &ORD_ONE));
         v.push(fam(DS, 3, "w12", &ORD_ONE));
